@@ -24,25 +24,32 @@ from checks import symlib
 
 MANIFEST = dict(
     level="exploration",
-    technique="TLA+ specs (RangeCoder direct-bit position accounting, Norm renormalisation model, LzmaSymbols) model-checked "
-              "with TLC; TLC-reached states / arrays and counter-examples of the regressed design replayed into every "
-              "implementation variant through cfg-gated accessors (function-level differential); per-symbol traces of both std "
-              "feature configurations validated by TLC against the same trace specifications; seeded transcript differential "
-              "over four feature builds",
-    text="Four builds of the crate (default; std without `optimization`; no_std with and without `optimization`) run the same "
-         "seeded case list - compression over an option grid x input classes, decoding of the valid streams and of bit-flipped, "
-         "truncated and chunk-shortened (direct-bit runs reading past the LZMA2 chunk buffer) variants - and their transcripts "
-         "(digest of compressed bytes, decode outcome, error kind, bytes delivered before the error and their digest) must be "
-         "identical. The places where the configurations run different code are specified once in TLA+ (direct-bit decoding "
-         "with its buffer position accounting at reduced width; max(p - off, 0) renormalisation) and checked by TLC; every "
-         "implementation variant (portable / assembly decode_direct_bits; scalar / dispatched / AVX2 / SSE4.1 normalize) is "
-         "run on the states and arrays TLC enumerates, including beyond the end of the buffer and unaligned prefixes / suffixes, "
-         "and must produce what the specification predicts. Symbol traces recorded in both std configurations are validated "
-         "against the same LzmaSymbols / LzDecoder trace specifications.",
-    ref="4.4 (Norm), 4.6, 4.7, 5.4, 6/C14",
+    technique="TLA+ specs (RangeCoder with its limb formulation, NormModel, LzmaSymbols, LzDecoder) model-checked with TLC; states, "
+              "arrays and counter-example classes of the regressed (clamping) design enumerated by TLC are replayed into every "
+              "implementation variant through cfg-gated accessors (function-level differential); TLC-sampled LzDecoder behaviours "
+              "(symbols and read sizes) are forged into streams and replayed strictly on the real readers of both std builds; "
+              "per-symbol, per-decoder-step and per-bit traces of the real code are validated by TLC against the trace "
+              "specifications; seeded transcript differential over four feature builds",
+    text="Four builds of the crate (default; std without `optimization`; no_std with and without `optimization`), made from one "
+         "source state, run the same seeded case list - compression over an option grid x input classes, decoding of the valid "
+         "streams and of bit-flipped, truncated and chunk-shortened (direct-bit runs reading past the LZMA2 chunk buffer) variants, "
+         "forged far-match streams - and their transcripts (digest of compressed bytes, decode outcome, error kind, bytes delivered "
+         "before the error and their digest) must be identical. The places where the configurations run different code are "
+         "specified once in TLA+ and checked by TLC: direct-bit decoding with its buffer position accounting (RangeCoder.tla at "
+         "reduced width: Decode(Encode(s)) = s, BytesPulled = BytesPushed, PendingSizeExact, PosAccounting / PastEndReadsZero; the "
+         "clamping assembly design of defect D19 violates them and TLC reports the state classes) and max(p - off, 0) "
+         "renormalisation (NormModel.tla). Every implementation variant (portable / assembly decode_direct_bits; scalar / "
+         "dispatched / AVX2 / SSE4.1 normalize) is run on the states and arrays TLC enumerates, including beyond the end of the "
+         "buffer and unaligned prefixes / suffixes, and must produce what the specification predicts. The same round trips run "
+         "in both std builds must yield identical compressed bytes and identical symbol / decoder-step event lists, which TLC "
+         "validates against Trace_LzmaSymbols, Trace_LzDecoder and (real width, limb arithmetic proved equal to RangeCoder.tla at "
+         "reduced width by TLC) Trace_RangeCoder; TLC-chosen symbol scripts and read sizes are replayed strictly on the real "
+         "LZMAReader / LZMA2Reader of both builds (bytes per call exactly as LzDecoder.tla predicts).",
+    ref="4.4 (Norm), 4.5, 4.6, 4.7, 5.2, 5.4, 6/C14; notes/groupC2.md",
     note="x86-64 only (NEON / wasm32 paths are read, not executed); held on the explored cases, not proved for all inputs; the "
          "no_std builds run without the verification hooks (they need std), so they take part in the transcript differential "
-         "only; TLC results hold at the reduced width (8-bit range, 2-bit shift, 3-bit probabilities) and small scripts.",
+         "only; TLC results hold at the reduced width (8-bit range, 2-bit shift, 3-bit probabilities, MoveBits 2) and small "
+         "scripts; a divergence between encoder-side and decoder-side symbol events is C01's witness and only DRIFT here.",
     ready=True,
 )
 
@@ -493,6 +500,7 @@ def symbol_traces(ctx, tier, target_cfgs):
         identical[a] = same
     # every configuration's traces are validated against the SAME specifications; a configuration whose event lists are
     # identical to an already validated one is covered by that validation
+    lz_runs = []
     for cfg_name in names:
         res = per_cfg[cfg_name]
         runs = [r["events"] for r in res if r.get("events")]
@@ -507,33 +515,25 @@ def symbol_traces(ctx, tier, target_cfgs):
                            f"{v.get('divergence') or v.get('next_event')}")
         else:
             ctx.add("traces_validated", len(runs))
-        lv = symlib.validate_lzdecoder(ctx, runs, name=cfg_name)
-        if not lv["accepted"]:
-            ctx.note_drift(f"LzDecoder traces of build {cfg_name}: Trace_LzDecoder rejects after event {lv['reached']}/{lv['total']}: {lv.get('next_event')}")
-        else:
-            ctx.add("traces_validated", lv["runs"])
-        ctx.cov.setdefault("trace_validation", {})[cfg_name] = {"runs": len(runs), "symbol_events": v["events"], "symbols_accepted": v["accepted"],
-                                                                  "lzdecoder_events": lv.get("events"), "lzdecoder_accepted": lv["accepted"]}
-        log(f"[trace] build {cfg_name}: {len(runs)} runs, {v['events']} symbol events accepted={v['accepted']}; lzdecoder events {lv.get('events')} accepted={lv['accepted']}")
+        lz_runs += runs
+        ctx.cov.setdefault("trace_validation", {})[cfg_name] = {"runs": len(runs), "symbol_events": v["events"], "symbols_accepted": v["accepted"]}
+        log(f"[trace] build {cfg_name}: {len(runs)} runs, {v['events']} symbol events accepted={v['accepted']}")
     if min(kinds) == 0:
         raise ToolError(f"vacuous symbol traces: a symbol kind never occurred {kinds}")
     ctx.cov["symbol_kinds_traced"] = kinds
+    return lz_runs      # their LzDecoder events are validated together with those of the forged behaviours
 
 
 def rangecoder_traces(ctx, tier, target_cfgs):
-    """Real-width binding of RangeCoder.tla: the limb formulation is checked equal to the integer formulation by TLC
-    at reduced width (RangeCoderLimbEq), then validates per-bit traces of the real encoder and decoder."""
+    """Real-width binding of RangeCoder.tla: the limb formulation (checked equal to the integer formulation by TLC at
+    reduced width in rangecoder_checks) validates per-bit traces of the real encoder and decoder."""
     quick = tier == "quick"
-    base = {"ShiftBits": "2", "RangeBits": "8", "ModelBits": "3", "MoveBits": "2", "MaxBits": "5" if quick else "6", "NCtx": "1",
-            "MaxDirect": "3", "AsmClamp": "FALSE", "MaxCut": "2"}
-    d, mod, cfg = core.write_model("RangeCoderLimbEq", base, invariants=("EncLimbAgree", "DecLimbAgree"))
-    ctx.tlc(mod, cfg, name="RangeCoderLimbEq", cwd=d, workers=6, timeout=900)
     rnd = random.Random(ctx.seed ^ 0xB175)
     jobs = []
-    for i in range(3 if quick else 24):
+    for i in range(4 if quick else 24):
         jobs.append(symlib.roundtrip_job(f"rc{i}", "lzma", {"preset": rnd.choice([0, 3, 6, 9]), "dict": 65536},
                                          {"class": rnd.choice(["text", "random", "repeat_far", "mixed", "zeros"]),
-                                          "len": rnd.choice([0, 1, 200, 500] if quick else [0, 1, 300, 1500, 4000]), "seed": rnd.randrange(1 << 30)},
+                                          "len": [0, 1, 300, 700][i % 4] if quick else rnd.choice([0, 1, 300, 1500, 4000]), "seed": rnd.randrange(1 << 30)},
                                          bits=True, emit_hex=True, marker=rnd.random() < 0.5))
     cfgs = dict(list(target_cfgs.items())[:1]) if quick else target_cfgs
     for cfg_name, (features, target) in cfgs.items():
@@ -611,10 +611,12 @@ def rangecoder_checks(ctx, tier):
         runs.append(("w8-long", dict(base, MaxBits="8", NCtx="1", MaxDirect="2")))
         runs.append(("w12", dict(base, RangeBits="12", ShiftBits="3", ModelBits="4", MoveBits="2", MaxBits="5", NCtx="1")))
     for name, consts in runs:
-        # everything that does not involve the assembly variant holds for both designs
-        d, mod, cfg = core.write_model("RangeCoder", consts, invariants=("RoundTrip", "BytesAccounted", "PendingSizeExact",
-                                                                         "PosAccounting", "PastEndReadsZero", "TypeOK"))
-        r = ctx.tlc(mod, cfg, name=f"RangeCoder {name} (repaired design)", cwd=d, workers=6, timeout=1500)
+        # the repaired design satisfies everything; the same exploration checks that the limb formulation used for
+        # real-width trace validation (RangeCoderLimb) computes exactly what the integer formulation computes
+        d, mod, cfg = core.write_model("RangeCoderLimbEq", consts, invariants=("RoundTrip", "BytesAccounted", "PendingSizeExact",
+                                                                               "PosAccounting", "PastEndReadsZero", "TypeOK",
+                                                                               "EncLimbAgree", "DecLimbAgree"))
+        r = ctx.tlc(mod, cfg, name=f"RangeCoder + RangeCoderLimbEq {name} (repaired design)", cwd=d, workers=6, timeout=1800)
         ctx.require_coverage(r, ["EncBit", "EncDirect"], "RangeCoder")
     # the clamping design: TLC must find the disagreement, and reports the classes of states where it occurs
     reg = dict(base, AsmClamp="TRUE", NCtx="1")
@@ -638,17 +640,16 @@ LZD_INV = ("OutputInOrder", "CopySourceValid", "DistCheck", "LimitRespected", "A
 LZD_PROPS = ("ZeroReadIsNoop", "DistCheckStep")
 
 
-def lzdecoder_stage(ctx, tier, target_cfgs):
+def lzdecoder_stage(ctx, tier, target_cfgs, more_runs=()):
     """LzDecoder.tla: exhaustive design check on a 4-cell ring; behaviours sampled by TLC (symbols AND read sizes chosen
     by TLC) replayed strictly on the real readers of every std configuration: on a 16-cell model ring scaled by 256 to
     the real minimum ring of LZMA2Reader (wraps), and unscaled on rings larger than the stream (small read sizes)."""
     quick = tier == "quick"
     base = {"B": "4", "ReadSizes": "{0,1,2,3,5}", "Lens": "{2,3,4}", "ChunkSizes": "{1,2,3,5}", "SizeKnown": "FALSE",
             "AllowBad": "TRUE", "KeepHist": "FALSE"}
-    mcs = [("lzma2", "lzma2", {"MaxStream": "5" if quick else "7"}),
-           ("lzma-marker", "lzma", {"MaxStream": "5" if quick else "7"})]
+    mcs = [("lzma2", "lzma2", {"MaxStream": "5" if quick else "7"})]
     if not quick:
-        mcs.append(("lzma-known", "lzma", {"SizeKnown": "TRUE", "MaxStream": "8"}))
+        mcs += [("lzma-marker", "lzma", {"MaxStream": "7"}), ("lzma-known", "lzma", {"SizeKnown": "TRUE", "MaxStream": "8"})]
     for name, kind, extra in mcs:
         c = dict(base, Kind=f'"{kind}"')
         c.update(extra)
@@ -680,12 +681,14 @@ def lzdecoder_stage(ctx, tier, target_cfgs):
                 for k in tot:
                     tot[k] += st.get(k, 0)
                 all_runs += runs
-    lv = symlib.validate_lzdecoder(ctx, all_runs, name="forged behaviours")
+    lv = symlib.validate_lzdecoder(ctx, all_runs + list(more_runs), name="forged behaviours + traced round trips")
     if lv["accepted"]:
         ctx.add("traces_validated", lv["runs"])
     else:
-        ctx.note_drift(f"Trace_LzDecoder rejects the decoder events of forged behaviours after event {lv['reached']}/{lv['total']}: "
-                       f"{lv.get('next_event')} state {lv.get('state')}")
+        ctx.note_drift(f"Trace_LzDecoder rejects the decoder events (forged behaviours, then traced round trips) after event "
+                       f"{lv['reached']}/{lv['total']}: {lv.get('next_event')} state {lv.get('state')}")
+    ctx.cov["lzdecoder_trace_validation"] = {"runs": lv["runs"], "events": lv.get("events"), "accepted": lv["accepted"]}
+    log(f"[trace] LzDecoder events: {lv['runs']} runs, {lv.get('events')} events accepted={lv['accepted']}")
     if min(tot["zero_reads"], tot["split_matches"], tot["wraps"], tot["bad_dist"]) == 0:
         raise ToolError(f"vacuous LzDecoder replay: a scenario class never occurred: {tot}")
     ctx.cov["lzdecoder_replay"] = tot
@@ -708,8 +711,8 @@ def run(tier, replay=None):
     classes |= h4_direct_bits(ctx, tier, std_cfgs, tlc_classes)
     classes |= h4_normalize(ctx, tier, std_cfgs)
     # ---- stage 3: traces of both std configurations against the same specifications
-    symbol_traces(ctx, tier, std_cfgs)
-    classes |= lzdecoder_stage(ctx, tier, std_cfgs)
+    lz_runs = symbol_traces(ctx, tier, std_cfgs)
+    classes |= lzdecoder_stage(ctx, tier, std_cfgs, more_runs=lz_runs)
     rangecoder_traces(ctx, tier, std_cfgs)
     if not quick:
         binding_demos(ctx, std_cfgs)
